@@ -72,7 +72,7 @@ const ALPHABET: &[u8] = b"abcdefghijklmnopqrstuvwxyzABCDEFGHIJKLMNOPQRSTUVWXYZ01
 const UDP_DEST: &str = "127.0.0.1:8125";
 const UNIX_DEST: &str = "/sim/run/statsd.sock";
 
-fn text_of(len: usize, id: u32, wide: bool, ws: bool, via_client: bool) -> String {
+fn text_of(len: usize, id: u32, wide: bool, ws: bool, via_client: bool, nl: bool) -> String {
     let suffix = if via_client { ":1|c" } else { "" };
     let body = len.saturating_sub(suffix.len());
     let letter = ALPHABET[id as usize % ALPHABET.len()] as char;
@@ -88,10 +88,11 @@ fn text_of(len: usize, id: u32, wide: bool, ws: bool, via_client: bool) -> Strin
         let n = s.len();
         let mut b = s.into_bytes();
         if b.iter().all(|c| c.is_ascii()) {
+            // (buffered sinks: blanks at the edges only - a newline inside would be two lines)
             b[0] = b' ';
-            b[n - 1] = b'\n';
+            b[n - 1] = if nl { b'\n' } else { b' ' };
             if n >= 5 {
-                b[n / 2] = b'\n';
+                b[n / 2] = if nl { b'\n' } else { b' ' };
                 b[n - 2] = b'\t';
             }
         }
@@ -185,6 +186,7 @@ struct Shared {
     mid_stats: Mutex<Vec<(u64, u64, u64, u64)>>,
     ctl: Option<SockCtl>,
     stats_src: Option<Arc<dyn MetricSink + Send + Sync>>,
+    buffered: bool,
 }
 
 fn run_prog(lane: usize, prog: &[NOp], front: Front, sh: &Shared, via_client: bool) {
@@ -196,7 +198,7 @@ fn run_prog(lane: usize, prog: &[NOp], front: Front, sh: &Shared, via_client: bo
         let s0 = kernel::steps();
         match op {
             NOp::Emit { len, id, wide, ws } => {
-                let text = text_of(*len, *id, *wide, *ws, via_client);
+                let text = text_of(*len, *id, *wide, *ws, via_client, !sh.buffered);
                 kernel::set_label(format!("emit #{id}"));
                 let r = call(|| match &front {
                     Front::Sink(s) => s.emit(&text).map_err(|e| ErrId::of(&e)),
@@ -373,6 +375,7 @@ fn sim_main(case: NetCase) -> Obs {
         mid_stats: Mutex::new(Vec::new()),
         ctl: ctl.clone(),
         stats_src: if has_stats { Some(base.clone()) } else { None },
+        buffered: matches!(case.sink, SinkKind::BufUdp | SinkKind::BufUnix | SinkKind::BufSpy),
     });
     for (i, prog) in case.tasks.iter().enumerate().skip(1) {
         let f = front.clone();
@@ -595,7 +598,8 @@ impl Engine for E5 {
                             }
                         };
                         let wide = prog.chance(1, 3) && !via_client;
-                        let ws = !wide && !buffered && !via_client && prog.chance(1, 4);
+                        // (buffered socket sinks must not trim either: agent11-C13; blanks only, see text_of)
+                        let ws = !wide && (!buffered || focus == "C13") && !via_client && prog.chance(1, 4);
                         let l = len.max(min);
                         fill = if l + 1 > capv {
                             0
